@@ -39,6 +39,9 @@ def obligations(tier):
             obs.append(Ob(f"C11.slice.n{n}r{rpc}", "X", "slice loads (incl. empty selections): one read per touched group, inside the group, none for untouched groups",
                           FUNCS_ARR, bounds=f"n={n}, m=3, rpc={rpc}; forall start, stop in [-{n + 2},{n + 2}], H>0; steps {steps}",
                           harness="harness/h_image.py", func="basic_slice_ok", params={"n": n, "m": 3, "rpc": rpc, "steps": steps}, timeout=900 if q else 3600))
+    obs.append(Ob("C11.default", "X", "the group size used for reads when records_per_chunk is not given (None, as on the cache path) is the documented default 1024 lines, "
+                  "-1 means all lines", ["ceos_alos2.array:Array.__post_init__", "ceos_alos2.array:normalize_chunksize"], bounds="forall n>=1, m>=1",
+                  harness="harness/h_enc.py", func="enc_default_ok", timeout=120))
     obs.append(Ob("C11.e2e", "E", "witness replay on an instrumented filesystem (logs every open/seek/read with offsets): open pass = descriptor + <= ceil(n/rpc) sequential requests; "
                   "a selection load = at most one read per touched group, confined to the group and the file; no other file touched", ["ceos_alos2.xarray:open_alos2", "ceos_alos2.array:Array.__getitem__"],
                   bounds="concrete replays (not the deciding step): 6 selections x 2 levels", call="props.e2e:ob_io", wall_timeout=600))
